@@ -16,6 +16,8 @@ mod dtinv;
 mod tzstr;
 #[cfg(feature = "tz-alloc")]
 mod tzif;
+#[cfg(feature = "tz-alloc")]
+mod resolve;
 
 use common::*;
 
@@ -49,6 +51,8 @@ fn main() {
             "tzstr" => tzstr::replay(&v["case"], &args),
             #[cfg(feature = "tz-alloc")]
             "tzif" => tzif::replay(&v["case"], &args),
+            #[cfg(feature = "tz-alloc")]
+            "resolve" => resolve::replay(&v["case"], &args),
             _ => {
                 eprintln!("no replay for engine {}", args.engine);
                 2
@@ -71,6 +75,8 @@ fn main() {
             "tzstr" => tzstr::run(&args),
             #[cfg(feature = "tz-alloc")]
             "tzif" => tzif::run(&args),
+            #[cfg(feature = "tz-alloc")]
+            "resolve" => resolve::run(&args),
             e => {
                 eprintln!("unknown engine {e}");
                 2
